@@ -114,6 +114,26 @@ macro_rules! harnesses {
             $body;
         }
     };
+    // mode pass: pass-level scenarios (step.rs): leaf restriction + `process` and `Item::clone`
+    // replaced by the models documented in step.rs
+    (@proof pass, $name:ident, $f:literal, $unwind:expr, $s:ident, $body:expr) => {
+        #[cfg(all(kani, feature = $f))]
+        #[kani::proof]
+        #[kani::unwind($unwind)]
+        #[kani::stub(alloc::fmt::format, stubs::format_stub)]
+        #[kani::stub(std::env::var_os, stubs::var_os_stub)]
+        #[kani::stub(core::str::slice_error_fail, stubs::slice_error_fail_stub)]
+        #[kani::stub(str::to_lowercase, stubs::to_lowercase_stub)]
+        #[kani::stub(avra_lib::expr::Expr::run, stubs::run_leaf)]
+        #[kani::stub(<avra_lib::expr::Expr as core::clone::Clone>::clone, stubs::clone_leaf)]
+        #[kani::stub(avra_lib::instruction::process, step::process_model)]
+        #[kani::stub(<avra_lib::parser::Item as core::clone::Clone>::clone, step::item_clone_model)]
+        fn $name() {
+            let mut src = src::KaniSrc;
+            let $s = &mut src;
+            $body;
+        }
+    };
     // mode leaf: additionally `Expr::run` / `Expr::clone` are replaced by their restriction to
     // leaf expressions (Const / Ident); a non-leaf expression trips an assertion.  Used where
     // the subject is the code *around* expression evaluation; the real `Expr::run` is the
@@ -567,4 +587,6 @@ harnesses! {
     c05_bin_div_edge { prop: C05, feat: "c05", tier: quick, mode: full, unwind: 3, caps: "run=2,clone=1,drop=2" } => |s| c05::ev_bin(s, 3, 4, 8);
     c05_bin_rem_edge { prop: C05, feat: "c05", tier: quick, mode: full, unwind: 3, caps: "run=2,clone=1,drop=2" } => |s| c05::ev_bin(s, 4, 5, 8);
     c05_func_log2_neg { prop: C05, feat: "c05", tier: thorough, mode: full, unwind: 7, caps: "run=2,clone=1,drop=2,loop:avra_lib::expr::Expr::run_nested.0=67" } => |s| c05::ev_func(s, 9, 10, 0);
+    // ---- pass-level scenarios (real build_pass_1 + build_pass_2; mode pass, see step.rs)
+    p02_instr_nop { prop: X02, feat: "c02", tier: thorough, mode: pass, unwind: 3, caps: "drop=1,loop:avra_lib::builder::pass1::pass_1_internal.0=5,loop:avra_lib::builder::pass2::pass_2_internal.0=5" } => |s| step::layout_instr(s, 0, false);
 }
